@@ -975,9 +975,14 @@ class AssociationServer(TCPServer):
         self.socket = cast(socket.socket, self.socket)
         client_socket, address = self.socket.accept()
         if self.ssl_context:
+            # The TLS handshake is performed here, in the server's own thread,
+            #   so a client that never completes it must not be able to block
+            #   the server from accepting other connections indefinitely
+            client_socket.settimeout(self.ae.acse_timeout)
             client_socket = self.ssl_context.wrap_socket(
                 client_socket, server_side=True
             )
+            client_socket.settimeout(None)
 
         return client_socket, address
 
